@@ -6,13 +6,18 @@ from .. import cutfind
 from ..core import call_real
 
 ID = "C07"
-LEAN_MODULE = "CKT.Props.C07"
+LEAN_MODULE = "CKT.Props.C07Exp"
 THEOREMS = ["CKT.C07." + t for t in [
     "find_idx", "step_accounting", "path_accounting", "reachable_gamma", "multiqubitGates_idx_nodup", "export_overhead",
     "init_inv", "merge_inv", "newWire_inv", "step_inv", "path_inv", "reachable_width", "export_nonmarkers", "export_cuts_spec",
     "init_inv2", "merge_inv2'", "step_inv2", "forbidden_self", "progress_gate_cut", "greedy_some_gate_cut", "loop_ok", "passes_ok",
     "optimize_never_fails_gate_cut", "step_budget", "progress_wire_cut", "greedy_some_wire_cut", "optimize_never_fails_wire_cut",
-    "optimize_error_only_if_greedy_none", "path_cases", "greedy_none_no_cuts"]]
+    "optimize_error_only_if_greedy_none", "path_cases", "greedy_none_no_cuts",
+    # T07.2 bookkeeping half (Props/C07Cnt): recorded width of a root = number of wires in its class, in every reachable state
+    "init_cnt", "merge_cnt'", "newWire_cnt'", "step_cnt", "reachable_class_size",
+    # T07.3 second half (Props/C07Exp): markers stand directly before the instruction they belong to
+    "prefix_length", "step_spec", "fold_spec", "export_items_spec", "step_gate", "path_gates_sublist", "sortByGate_spec",
+    "reachable_export_items_spec"]]
 RULE = ("random circuits on 2-8 qubits with up to 10 instructions (two-qubit gates of every family, Move, one-qubit gates, partial and full "
         "barriers, occasionally a three-qubit gate), every width limit, all permitted-cut combinations, restricted and unrestricted search "
         "settings, invalid settings; exact comparison (instruction list, metadata, overhead, flag) on integer-kappa circuits with the seeded "
